@@ -37,5 +37,7 @@ RULES = [
     ("C05.partloops", lambda c, r: __import__("sa.rules.lfht2", fromlist=["x"]).rule_partloops(c, r, "C05.partloops")),
     ("C05.createbucket", lambda c, r: __import__("sa.rules.lfht2", fromlist=["x"]).rule_createbucket(c, r, "C05.createbucket")),
     ("C05.online", lambda c, r: lfht.rule_online(c, r, "C05.online")),   # an offline thread is not a reader: no table access between thread_offline() and thread_online()
+    ("C05.walkstart", lambda c, r: __import__("sa.rules.lfht2", fromlist=["x"]).rule_walkstart(c, r, "C05.walkstart")),   # whole-table walks start at bucket 0
+    ("C05.rhinit", lambda c, r: __import__("sa.rules.lfht2", fromlist=["x"]).rule_rhinit(c, r, "C05.rhinit")),   # node->reverse_hash = bit_reverse_ulong(hash) before linking, in every entry point
 ]
 FLOORS = {}
